@@ -70,3 +70,73 @@ Lemma divmod_def_iff n d q r :
 Proof.
   unfold divmod_def. rewrite !Bool.andb_true_iff, Z.eqb_eq, !Z.leb_le. tauto.
 Qed.
+
+(* ---- the rewriter's cache ------------------------------------------------------------------------------ *)
+From Coq Require Import List Bool.
+Import ListNotations.
+
+Lemma key_eqb_eq a b : key_eqb a b = true -> a = b.
+Proof.
+  destruct a, b. unfold key_eqb. cbn. rewrite Bool.andb_true_iff, Nat.eqb_eq, Z.eqb_eq. intros [-> ->]. reflexivity.
+Qed.
+
+Lemma cache_find_spec defs k : forall i j, cache_find defs k i = Some j -> (i <= j)%nat /\ nth_error defs (j - i) = Some k.
+Proof.
+  induction defs as [|d r IH]; intros i j H; cbn in H; [discriminate|].
+  destruct (key_eqb d k) eqn:E.
+  - injection H as <-. apply key_eqb_eq in E. subst. rewrite Nat.sub_diag. split; [lia | reflexivity].
+  - apply IH in H. destruct H as [Hle Hn]. split; [lia|]. replace (j - i)%nat with (S (j - S i)) by lia. exact Hn.
+Qed.
+
+Definition app_key (a : dm_app) : nat * Z := let '(_, n, d) := a in (n, d).
+Definition app_kind (a : dm_app) : dm_kind := let '(k, _, _) := a in k.
+
+Lemma rw_apps_spec apps : forall defs0 defs vs, rw_apps defs0 apps = (defs, vs) ->
+  (exists ext, defs = defs0 ++ ext /\ forall k, In k ext -> exists a, In a apps /\ app_key a = k) /\
+  Forall2 (fun a v => nth_error defs (fst v) = Some (app_key a) /\ snd v = app_kind a) apps vs.
+Proof.
+  induction apps as [|[[k n] d] r IH]; intros defs0 defs vs H; cbn in H.
+  - injection H as <- <-. split; [exists []; split; [now rewrite app_nil_r | intros ? []] | constructor].
+  - destruct (cache_find defs0 (n, d) 0) as [i|] eqn:E.
+    + destruct (rw_apps defs0 r) as [defs' vs'] eqn:R. injection H as <- <-.
+      destruct (IH _ _ _ R) as ((ext & -> & Hext) & HF). split.
+      * exists ext. split; [reflexivity|]. intros k0 Hk. destruct (Hext k0 Hk) as (a & Ha & Hka). exists a. split; [now right | assumption].
+      * constructor; [|assumption]. cbn [fst snd app_key app_kind]. split; [|reflexivity].
+        apply cache_find_spec in E. destruct E as [_ E]. rewrite Nat.sub_0_r in E. rewrite nth_error_app1; [assumption|].
+        apply nth_error_Some. congruence.
+    + destruct (rw_apps (defs0 ++ [(n, d)]) r) as [defs' vs'] eqn:R. injection H as <- <-.
+      destruct (IH _ _ _ R) as ((ext & -> & Hext) & HF). split.
+      * exists ((n, d) :: ext). split; [now rewrite <- app_assoc|]. intros k0 [<-|Hk].
+        -- exists (k, n, d). split; [now left | reflexivity].
+        -- destruct (Hext k0 Hk) as (a & Ha & Hka). exists a. split; [now right | assumption].
+      * constructor; [|assumption]. cbn [fst snd app_key app_kind]. split; [|reflexivity].
+        rewrite <- app_assoc. rewrite nth_error_app2 by lia. rewrite Nat.sub_diag. reflexivity.
+Qed.
+
+(* Soundness of the elimination with sharing: whenever the definitions hold, every application is replaced
+   by a variable whose value is the SMT-LIB value of the application. *)
+Lemma rw_apps_sound rho sigma apps defs vs :
+  Forall (fun a => snd (app_key a) <> 0) apps -> rw_apps [] apps = (defs, vs) -> defs_hold rho sigma defs ->
+  Forall2 (fun a v => aux_val sigma v = app_val rho a) apps vs.
+Proof.
+  intros Hnz R Hd. destruct (rw_apps_spec apps [] defs vs R) as (_ & HF).
+  clear R. induction HF as [|a v apps' vs' [Hn Hk] _ IH]; constructor.
+  - destruct a as [[k n] d]. destruct v as [i k']. cbn in Hn, Hk. subst k'.
+    inversion Hnz as [|? ? Hd0 _]; subst. cbn in Hd0.
+    specialize (Hd i n d Hn). apply divmod_def_iff in Hd.
+    assert (Hc : fst (sigma i) = smt_div (rho n) d /\ snd (sigma i) = smt_mod (rho n) d).
+    { destruct Hd as [H1 H2]. apply smt_divmod_unique; [assumption | assumption | lia]. }
+    unfold aux_val, app_val. cbn [fst snd]. destruct k; tauto.
+  - apply IH. now inversion Hnz.
+Qed.
+
+(* ... and the definitions are satisfiable: the canonical extension satisfies them (conservativity). *)
+Lemma rw_apps_canon rho apps defs vs :
+  Forall (fun a => snd (app_key a) <> 0) apps -> rw_apps [] apps = (defs, vs) -> defs_hold rho (canon_sigma rho defs) defs.
+Proof.
+  intros Hnz R i n d Hn. unfold canon_sigma. rewrite Hn. cbn [fst snd]. apply divmod_def_iff.
+  destruct (rw_apps_spec apps [] defs vs R) as ((ext & E & Hext) & _). cbn in E. subst ext.
+  assert (Hin : In (n, d) defs) by (eapply nth_error_In; eassumption).
+  destruct (Hext _ Hin) as (a & Ha & Hka). rewrite Forall_forall in Hnz. specialize (Hnz a Ha). rewrite Hka in Hnz. cbn in Hnz.
+  destruct (smt_divmod_spec (rho n) d Hnz). split; [assumption | lia].
+Qed.
